@@ -218,9 +218,16 @@ class Ctx:
         rec = {"module": module, "config": name, "states_generated": res.generated,
                "distinct_states": res.distinct, "wall_s": round(res.wall, 1), "expect": expect}
         if expect == "ok":
+            completed = "Model checking completed. No error has been found." in res.out
+            if not res.ok or not completed:
+                why = ("invariant %s violated" % res.invariant_violated if res.invariant_violated else
+                       "temporal/action property violated" if res.property_violated else
+                       "assumption false" if res.assume_failed else
+                       "deadlock" if res.deadlock else "TLC did not complete (killed / out of memory?)")
+                raise MachineryError("positive model run %s/%s failed: %s\n%s" % (module, name, why, res.out[-1500:]))
             self.states += res.distinct
             self.transitions += res.generated
-            rec["ok"] = res.ok
+            rec["ok"] = True
             self.mc_runs.append(rec)
             if coverage:
                 z = res.coverage_zero()
